@@ -1,12 +1,20 @@
 (* C01 - running a program yields exactly what its source text denotes. Property theorems only (definitional semantics in spec/Sem.v; fragments and observation relations in spec/Fragment*.v; proofs in proofs/CompileCorrectA.v ... J10.v). MAIN THEOREM compile_correct (= compile_correct_F4): for EVERY program of the language outside the documented exclusions of DESIGN.md 4.3 - the boolean predicate in_F4 of spec/Fragment4.v: literals, all operators, variables in nested scopes, assignment, blocks, als / anders als / anders, zolang with stop / volgende, named and anonymous FUNCTIONS, recursion, first-class functions, ARRAYS, STRINGS, FLOATS, indexing and index assignment, the seven BUILTINS with their printed output - the machine, running the compiled bytecode WITH its collector (a collection at every function return), yields exactly the value GRAPH (under a location correspondence), the OUTPUT and the ERROR KIND (raised after the same output) that the definitional semantics assigns to the tree. Hypotheses, each an exclusion of 4.3: ends_expr (item 1), lits_exact (no two IEEE-equal but different float literals such as 0.0 and -0.0: only a hand-built tree has them, the parser never produces a signed literal), sem_small (fewer than 2^60 objects, item 5), and the disjunct hits_excluded4 = the run hits one of three run-time events: the 16-bit stack / frame limits (item 5), == on two function values (item 14), a call with more arguments than parameters (item 4). Fuel of Sem.v: any amount that suffices (sem_fuel_mono: more never changes the result). The earlier fragment theorems are kept: F3 (no heap), F2h (no functions; unconditional apart from lits_exact / sem_small), F2 (scalars: unconditional), F1. What ties the theorem to the Rust code is the correspondence: byte-identical bytecode and step-exact runs of Compiler.v / VM.v against the implementation, and Sem.v evaluated on the same trees. *)
 From NL.Model Require Import Pipeline.
 From NL.Spec Require Import Sem Fragment Fragment2 Fragment2h Fragment3 Fragment4.
-From NL.Proofs Require CompileCorrectA CompileCorrectB CompileCorrectC CompileCorrectD CompileCorrectI CompileCorrectH5 CompileCorrectJ8 CompileCorrectJ9 CompileCorrectJ10 SessionRefineF.
+From NL.Proofs Require CompileCorrectA CompileCorrectB CompileCorrectC CompileCorrectD CompileCorrectI CompileCorrectH5 CompileCorrectJ8 CompileCorrectJ9 CompileCorrectJ10 SessionRefineF CompileCorrectText.
 Open Scope Z_scope.
 
 (* compiler correctness for the whole language outside the exclusions of DESIGN 4.3 (functions AND heap values AND builtins; the collector runs during the program): value graph, output and error kind agree with the definitional semantics, unless the run hits one of the three excluded run-time events *)
 Theorem compile_correct : forall (orc : oracle) (p : block), in_F4 p = true -> ends_expr p = true -> lits_exact (lits_b p) -> forall bc : bytecode, compile p = Ok bc -> forall fuel : nat, (size3_b p <= fuel)%nat -> sem_program orc fuel p <> SemFuel -> sem_small orc fuel p (length (b_constants bc)) -> (exists budget : nat, obs_eq4 (run_program orc bc budget) (sem_program orc fuel p)) \/ hits_excluded4 (CompileCorrectJ5.fun_table p) orc bc.
 Proof. exact CompileCorrectJ9.compile_correct_F4. Qed.
+
+(* the same on SOURCE TEXT: `eval` (the model of lib.rs::eval: parse, compile with a fresh compiler, run on a fresh machine) applied to a text that parses to such a tree yields the observation the semantics assigns to the tree *)
+Theorem eval_text_correct : forall (u : unicode) (orc : oracle) (src : text) (p : block), parse u (parse_float orc) src = Ok p -> in_F4 p = true -> ends_expr p = true -> lits_exact (lits_b p) -> forall bc : bytecode, compile p = Ok bc -> forall fuel : nat, (size3_b p <= fuel)%nat -> sem_program orc fuel p <> SemFuel -> sem_small orc fuel p (length (b_constants bc)) -> (exists (budget : nat) (extra : Z) (o : observation), eval u orc src budget = Ran extra o /\ obs_eq4 o (sem_program orc fuel p)) \/ hits_excluded4 (CompileCorrectJ5.fun_table p) orc bc.
+Proof. exact CompileCorrectText.eval_text_correct. Qed.
+
+(* a text that does not parse, or whose tree the compiler rejects, is a front-end error before anything runs *)
+Theorem eval_text_front_error : forall (u : unicode) (orc : oracle) (src : text) (budget : nat), (forall p : block, parse u (parse_float orc) src <> Ok p) \/ (exists p : block, parse u (parse_float orc) src = Ok p /\ (forall bc : bytecode, compile p <> Ok bc)) -> exists r : outcome bytecode, eval u orc src budget = FrontError r.
+Proof. exact CompileCorrectText.eval_text_front_error. Qed.
 
 (* every program the compiler accepts passes the semantics' static pass *)
 Theorem static_accepts_F4 : forall (p : block) (bc : bytecode) (fuel : nat), in_F4 p = true -> compile p = Ok bc -> (size3_b p <= fuel)%nat -> static_check fuel p = None.
@@ -66,6 +74,8 @@ Proof. exact CompileCorrectB.static_reject_F1. Qed.
 
 
 Print Assumptions compile_correct.
+Print Assumptions eval_text_correct.
+Print Assumptions eval_text_front_error.
 Print Assumptions static_accepts_F4.
 Print Assumptions print_output_order_F4.
 Print Assumptions sem_fuel_mono.
